@@ -93,10 +93,18 @@ def special(i):
         return {"a": {}}
     if i == 26:
         return [None]
-    return (1, "<b>")
+    if i == 27:
+        return (1, "<b>")
+    if i == 28:
+        return 10 ** 5000          # beyond sys.get_int_max_str_digits()
+    if i == 29:
+        return "99999999999999999999"
+    if i == 30:
+        return chr(0xD800)         # lone surrogate: valid JSON-like text, not encodable as UTF-8
+    return -1
 
 
-NSPECIAL = 27
+NSPECIAL = 31
 
 
 def only_liquid(t, data):
@@ -136,7 +144,7 @@ def _mk_filter(n):
         pre: not isinstance(x, str) or len(x) <= 3
         pre: not isinstance(y, str) or len(y) <= 3
         pre: not isinstance(z, str) or len(z) <= 2
-        pre: 1 <= k <= 3 and 0 <= slot <= 3 and 0 <= sp <= 27 and 0 <= mode <= 2
+        pre: 1 <= k <= 3 and 0 <= slot <= 3 and 0 <= sp <= 31 and sp != 28 and 0 <= mode <= 2
         post: _
         """
         if excluded("c02_filter_" + n, locals()):
@@ -174,19 +182,32 @@ for _n in NAMES:
 _SUB = (0, 3, 5, 10, 11, 20, 21, 22)
 
 
-def _specials_sweep(n, k, m):
+HUGE = 28   # the int beyond sys.get_int_max_str_digits(): swept by c02_int_beyond_str_digits only (known finding)
+_POOL = [i for i in range(NSPECIAL + 1) if i != HUGE]
+
+
+def srepr(v):
+    try:
+        return repr(v)[:60]
+    except ValueError:
+        return "<int beyond sys.get_int_max_str_digits()>"
+
+
+def _specials_sweep(n, k, m, pool=None, ypool=None):
     bad = []
+    pool = _POOL if pool is None else pool
+    ypool = pool if ypool is None else ypool
     if k == 1:
-        for a in range(NSPECIAL + 1):
+        for a in pool:
             if not only_liquid(T1[(m, n)], {"x": special(a)}):
                 bad.append((a,))
     elif k == 2:
-        for a in range(NSPECIAL + 1):
-            for b in range(NSPECIAL + 1):
+        for a in pool:
+            for b in ypool:
                 if not only_liquid(T2[(m, n)], {"x": special(a), "y": special(b)}):
                     bad.append((a, b))
     else:
-        for a in range(NSPECIAL + 1):
+        for a in pool:
             for b in _SUB:
                 for c in _SUB:
                     if not only_liquid(T3[(m, n)], {"x": special(a), "y": special(b), "z": special(c)}):
@@ -214,8 +235,8 @@ for _i in range(3):
     globals()["c02_filters_specials_m%d" % _i] = _mk_specials(_i)
     DETAIL["c02_filters_specials_m%d" % _i] = (lambda mode: lambda fi, k: {
         "filter": NAMES[fi], "arity": k, "mode": str(_mode(mode)),
-        "escaping": [tuple(repr(special(j)) for j in t) for t in _specials_sweep(NAMES[fi], k, _mode(mode))[:4]]})(_i)
-    CONDITIONS.append({"fn": "c02_filters_specials_m%d" % _i, "quick": 60, "thorough": 120, "sel_only": True})
+        "escaping": [tuple(srepr(special(j)) for j in t) for t in _specials_sweep(NAMES[fi], k, _mode(mode))[:4]]})(_i)
+    CONDITIONS.append({"fn": "c02_filters_specials_m%d" % _i, "quick": 150, "thorough": 300, "sel_only": True})
 
 # ---- tag argument positions ------------------------------------------------------------------------------------
 TAGS = {
@@ -249,7 +270,7 @@ def _mk_tag(kind):
         """
         pre: not isinstance(x, str) or len(x) <= 3
         pre: not isinstance(y, str) or len(y) <= 3
-        pre: 0 <= n <= 3 and 0 <= slot <= 2 and 0 <= sp <= 27 and 0 <= mode <= 2
+        pre: 0 <= n <= 3 and 0 <= slot <= 2 and 0 <= sp <= 31 and sp != 28 and 0 <= mode <= 2
         post: _
         """
         if excluded("c02_tag_" + kind, locals()):
@@ -267,6 +288,67 @@ for _k in TAGS:
     globals()["c02_tag_" + _k] = _mk_tag(_k)
     CONDITIONS.append({"fn": "c02_tag_" + _k, "quick": 30 if _k in ("for_range", "tablerow_cols", "include_for", "index_path", "translate_count", "string_seq") else None, "thorough": 240, "float": True})
 
+def c02_int_beyond_str_digits(fi: int, k: int, slot: int) -> bool:
+    """
+    pre: 0 <= fi <= 80 and 1 <= k <= 2 and 0 <= slot <= 1
+    post: _
+    """
+    # an int with more digits than sys.get_int_max_str_digits() in the input (slot 0) or argument (slot 1) position of
+    # every filter, and (fi == 80) built by the template itself with `times` and written by an output statement
+    if excluded("c02_int_beyond_str_digits", locals()):
+        return True
+    fi, k, slot = cint(fi, 0, 80), cint(k, 1, 2), cint(slot, 0, 1)
+    return finish(untraced(lambda: _huge_case(fi, k, slot)))
+
+
+_HUGE_T = ENV.from_string("{% assign x = 99999999 %}{% for i in (1..10) %}{% assign x = x | times: x %}{% endfor %}{{ x }}")
+
+
+def _huge_case(fi, k, slot):
+    if fi == 80:
+        return only_liquid(_HUGE_T, {})
+    if k == 1:
+        return only_liquid(T1[(Mode.STRICT, NAMES[fi])], {"x": special(HUGE)})
+    data = {"x": special(HUGE), "y": 1} if slot == 0 else {"x": "a", "y": special(HUGE)}
+    return only_liquid(T2[(Mode.STRICT, NAMES[fi])], data)
+
+
+DETAIL["c02_int_beyond_str_digits"] = lambda fi, k, slot: {"filter": "(template only: times in a loop, then output)" if fi == 80 else NAMES[fi],
+                                                            "arity": k, "huge int is the": ("input", "argument")[slot]}
+CONDITIONS.append({"fn": "c02_int_beyond_str_digits", "quick": 30, "thorough": 60, "sel_only": True})
+
+
+# every tag template x every pair of special values in the x / y positions (the solver selects template and mode;
+# the body sweeps the pool of special values on the plain interpreter)
+_TAG_KEYS = sorted(TAGS)
+
+
+def _tag_sweep(kind, m):
+    bad = []
+    t = TT[(m, kind)]
+    for a in _POOL:
+        for b in _POOL:
+            for n in (0, 2):
+                if not only_liquid(t, {"x": special(a), "y": special(b), "xs": list(range(n)), "d": {"a": 1, "b": {"c": 2}}}):
+                    bad.append((a, b, n))
+    return bad
+
+
+def c02_tags_specials(ti: int, mode: int) -> bool:
+    """
+    pre: 0 <= ti <= 17 and 0 <= mode <= 2
+    post: _
+    """
+    if excluded("c02_tags_specials", locals()):
+        return True
+    ti, mode = cint(ti, 0, len(_TAG_KEYS) - 1), cint(mode, 0, 2)
+    return finish(untraced(lambda: not _tag_sweep(_TAG_KEYS[ti], _mode(mode))))
+
+
+DETAIL["c02_tags_specials"] = lambda ti, mode: {"template": TAGS[_TAG_KEYS[ti]], "mode": str(_mode(mode)),
+                                                "escaping": [(srepr(special(a)), srepr(special(b)), n) for a, b, n in _tag_sweep(_TAG_KEYS[ti], _mode(mode))[:4]]}
+CONDITIONS.append({"fn": "c02_tags_specials", "quick": 150, "thorough": 300, "sel_only": True})
+
 # ---- kernels -------------------------------------------------------------------------------------------------------
 from liquid.filter import decimal_arg, int_arg, num_arg  # noqa: E402
 from liquid.limits import to_int  # noqa: E402
@@ -275,7 +357,7 @@ from liquid.limits import to_int  # noqa: E402
 def c02_kernel_args(x: V, k: int, slot: bool, sp: int) -> bool:
     """
     pre: not isinstance(x, str) or len(x) <= 4
-    pre: 0 <= k <= 3 and 0 <= sp <= 27
+    pre: 0 <= k <= 3 and 0 <= sp <= 31 and sp != 28
     post: _
     """
     # the argument helpers used by every numeric filter: return, or raise a LiquidError (to_int: ValueError/TypeError
@@ -377,6 +459,8 @@ def selftest():
         fails.append("plus with junk should only raise LiquidError")
     if only_liquid(ENV.from_string("{{ x }}"), {"x": 1}) is not True:
         fails.append("baseline")
+    if len(TAGS) != 18:
+        fails.append("c02_tags_specials is bounded to 18 tag templates, found %d" % len(TAGS))
     if len(NAMES) != 80:
         fails.append("c02_filters_specials is bounded to 80 registered filters, found %d" % len(NAMES))
     return fails
